@@ -11,6 +11,8 @@ Helper lemmas for C11 (NODES responses: honest responders are never banned).
 * `splitPackets_flatten`: the packets are a partition of the collected records.
 * `acceptNodes_ok`: a packet of wanted records is accepted whole, without ban.
 * `discovered_active`: `discovered` does not touch the active requests.
+* `handleResponse_nodes_active`: a NODES response for an active request either leaves the request
+  removed or the packet accounting said `wait`.
 -/
 import Discv5Model.Model.Service
 import Discv5Model.Model.KBucketSpec
@@ -31,8 +33,11 @@ def BAll (Q : Nat → V → Prop) (b : Bucket V) : Prop :=
 def TAll (Q : Nat → V → Prop) (t : Table V) : Prop := ∀ b ∈ t.buckets, BAll Q b
 
 omit [DecidableEq V] in
-theorem ball_empty (Q : Nat → V → Prop) : BAll Q ({} : Bucket V) :=
-  ⟨fun n hn => by cases hn, fun p hp => by cases hp⟩
+theorem ball_empty (Q : Nat → V → Prop) : BAll Q ({} : Bucket V) := by
+  unfold BAll
+  constructor
+  · intro n hn; cases hn
+  · intro p hp; cases hp
 
 theorem insert_ball {c : Cfg V} {now : Nat} {b : Bucket V} {node : Node V} {Q : Nat → V → Prop}
     (h : BAll Q b) (hn : Q node.key node.value) : BAll Q (Bucket.insert c now b node).1 := by
@@ -104,6 +109,15 @@ theorem applyForDistances_tall {c : Cfg V} {now m : Nat} {Q : Nat → V → Prop
       · exact hset'
       · exact ih _ _ hset'
 
+omit [DecidableEq V] in
+theorem tall_init (Q : Nat → V → Prop) (localKey : Nat) : TAll Q (Table.init localKey : Table V) := by
+  intro b hb
+  have hb' : b = {} := by
+    simp only [Table.init] at hb
+    exact List.eq_of_mem_replicate hb
+  rw [hb']
+  exact ball_empty Q
+
 theorem nodesByDistances_tall {c : Cfg V} {now : Nat} {t : Table V} {ds : List Nat} {m : Nat}
     {Q : Nat → V → Prop} (h : TAll Q t) : TAll Q (t.nodesByDistances c now ds m).1 := by
   unfold Table.nodesByDistances
@@ -161,7 +175,7 @@ end Discv5.KB
 
 namespace Discv5.Svc
 
-open Discv5.KB
+open Discv5.KB Discv5.Svc.Svc
 
 /-! ### distances -/
 
@@ -211,7 +225,7 @@ theorem mem_sortNat {y : Nat} : ∀ {l : List Nat}, y ∈ sortNat l ↔ y ∈ l
     rw [List.foldr_cons, mem_insertSorted, ih, List.mem_cons]
 
 theorem mem_of_mem_dedupAdj (y : Nat) : ∀ l : List Nat, y ∈ dedupAdj l → y ∈ l
-  | [], h => by simpa [dedupAdj] using h
+  | [], h => by simp [dedupAdj] at h
   | [x], h => by simpa [dedupAdj] using h
   | x :: z :: rest, h => by
     unfold dedupAdj at h
@@ -338,6 +352,23 @@ ENR request `[0]`, has at most one record — is accepted whole and does not ban
 theorem acceptNodes_ok (peer : Nat) (ds : List Nat) (p : List Rec)
     (h : ∀ r ∈ p, (log2Distance peer r.id).getD 0 ∈ ds) (h1 : ds = [0] → p.length ≤ 1) :
     acceptNodes peer ds p = (p, false) := by
+  have key1 : ∀ (f : Rec → Bool), (∀ r ∈ p, f r = true) → p.length ≤ 1 →
+      (p.filter f, decide (p.length > 1) || decide ((p.filter f).length < p.length)) = (p, false) := by
+    intro f hf hlen
+    rw [List.filter_eq_self.2 hf]
+    have e1 : decide (p.length > 1) = false := by
+      rw [decide_eq_false_iff_not]; omega
+    have e2 : decide (p.length < p.length) = false := by
+      rw [decide_eq_false_iff_not]; omega
+    rw [e1, e2]
+    rfl
+  have key2 : ∀ (f : Rec → Bool), (∀ r ∈ p, f r = true) →
+      (p.filter f, decide ((p.filter f).length < p.length)) = (p, false) := by
+    intro f hf
+    rw [List.filter_eq_self.2 hf]
+    have e2 : decide (p.length < p.length) = false := by
+      rw [decide_eq_false_iff_not]; omega
+    rw [e2]
   unfold acceptNodes
   by_cases hc : (ds.length == 1 && ds.head? == some 0) = true
   · rw [if_pos hc]
@@ -347,40 +378,26 @@ theorem acceptNodes_ok (peer : Nat) (ds : List Nat) (p : List Rec)
       match ds, hl, hh with
       | [x], _, hh => simp at hh; simp [hh]
     subst hreq
-    have hf : p.filter (fun r => (log2Distance peer r.id).isNone) = p := by
-      rw [List.filter_eq_self]
-      intro r hr
-      have := h r hr
-      cases hd : log2Distance peer r.id with
-      | none => rfl
-      | some d =>
-        have hp := log2Distance_ge_one hd
-        rw [hd, Option.getD_some, List.mem_singleton] at this
-        omega
-    have hlen := h1 rfl
-    simp only [hf]
-    have e1 : decide (p.length > 1) = false := by simp; omega
-    have e2 : decide (p.length < p.length) = false := by simp
-    rw [e1, e2]
-    rfl
+    apply key1 _ _ (h1 rfl)
+    intro r hr
+    have := h r hr
+    cases hd : log2Distance peer r.id with
+    | none => rfl
+    | some d =>
+      have hp := log2Distance_ge_one hd
+      rw [hd, Option.getD_some, List.mem_singleton] at this
+      omega
   · rw [if_neg hc]
-    have hf : p.filter (fun r =>
-        match log2Distance peer r.id with
-        | some d => ds.contains d
-        | none => ds.contains 0) = p := by
-      rw [List.filter_eq_self]
-      intro r hr
-      have := h r hr
-      cases hd : log2Distance peer r.id with
-      | none =>
-        rw [hd] at this
-        simpa using this
-      | some d =>
-        rw [hd] at this
-        simpa using this
-    simp only [hf]
-    have e2 : decide (p.length < p.length) = false := by simp
-    rw [e2]
+    apply key2
+    intro r hr
+    have := h r hr
+    cases hd : log2Distance peer r.id with
+    | none =>
+      rw [hd] at this
+      simpa using this
+    | some d =>
+      rw [hd] at this
+      simpa using this
 
 /-- The honest responder: every packet of `send_nodes_response` is accepted whole by the
 requester's filter, for every requested distance list. -/
@@ -402,5 +419,117 @@ theorem sendNodesResponse_out (s : Svc) (peer : Nat) (addr : Addr) (rid : Bytes)
       (nodesPackets (s.nodesToSend peer ds).2).1.map
         (fun p => Out.response peer addr rid (.nodes (nodesPackets (s.nodesToSend peer ds).2).2 p)) := by
   rfl
+
+/-! ### `discovered` leaves the active requests alone -/
+
+theorem entryRemove_active (s : Svc) (key : Nat) : (s.entryRemove key).active = s.active := by
+  unfold entryRemove
+  cases bucketIndex s.table.localKey key <;> rfl
+
+theorem ite_active {c : Prop} [Decidable c] {α : Type} (a b : Svc × α) (x : List ActiveReq)
+    (ha : a.1.active = x) (hb : b.1.active = x) : (if c then a else b).1.active = x := by
+  split <;> assumption
+
+theorem discoveredOne_active (s : Svc) (source : Nat) (r : Rec) :
+    (s.discoveredOne source r).1.active = s.active := by
+  simp only [discoveredOne, entry]
+  repeat' (first | apply ite_active | split)
+  all_goals first | rfl | exact entryRemove_active _ _
+
+theorem discoveredLoop_cons (s : Svc) (source : Nat) (r : Rec) (rs kept : List Rec)
+    (outs : List Out) :
+    discoveredLoop s source (r :: rs) kept outs =
+      discoveredLoop (s.discoveredOne source r).1 source rs
+        (if (s.discoveredOne source r).2.1 then kept ++ [r] else kept)
+        (outs ++ (s.discoveredOne source r).2.2) := rfl
+
+theorem discoveredLoop_active : ∀ (recs : List Rec) (s : Svc) (source : Nat) (kept : List Rec)
+    (outs : List Out), (discoveredLoop s source recs kept outs).1.active = s.active
+  | [], _, _, _, _ => rfl
+  | r :: rs, s, source, kept, outs => by
+    rw [discoveredLoop_cons, discoveredLoop_active rs]
+    exact discoveredOne_active s source r
+
+theorem discovered_active (s : Svc) (source : Nat) (recs : List Rec) (query : Option Nat) :
+    (s.discovered source recs query).1.active = s.active := by
+  have h := discoveredLoop_active recs s source [] []
+  unfold discovered
+  generalize discoveredLoop s source recs [] [] = x at h ⊢
+  obtain ⟨s1, kept, outs⟩ := x
+  simp only [] at h ⊢
+  repeat' split
+  all_goals exact h
+
+theorem takeNodesResp_fst (s : Svc) (id : Nat) :
+    (s.takeNodesResp id).1.active = s.active := by
+  unfold takeNodesResp
+  cases s.nodesResp.find? (fun p => p.1 == id) <;> rfl
+
+theorem takeNodesResp_snd (s : Svc) (id : Nat) :
+    (s.takeNodesResp id).2 = (s.nodesResp.find? (fun p => p.1 == id)).map (·.2) := by
+  unfold takeNodesResp
+  cases s.nodesResp.find? (fun p => p.1 == id) <;> rfl
+
+/-! ### a NODES response for an active request -/
+
+/-- The distances of the request a NODES response answers (`[]` if it is not a FINDNODE). -/
+def requestedOf : ReqBody → List Nat
+  | .findNode ds => ds
+  | _ => []
+
+theorem handleResponse_nodes_active (s : Svc) (o : Oracle) (peer : Nat) (addr : Addr) (id total : Nat)
+    (recs : List Rec) (req : ActiveReq)
+    (hreq : s.active.find? (fun a => a.id == id) = some req) :
+    (s.handleResponse o peer addr id (.nodes total recs)).1.active =
+        s.active.filter (fun b => b.id != id) ∨
+    ∃ nr, nodesAccount s.cfg.maxNodesResponse total
+      (if total > 1 then (s.nodesResp.find? (fun p => p.1 == id)).map (·.2) else none)
+      (acceptNodes peer (requestedOf req.body) recs).1 = .wait nr := by
+  obtain ⟨s0, hs0⟩ : ∃ s0 : Svc, s0 = { s with active := s.active.filter (fun b => b.id != id) } :=
+    ⟨_, rfl⟩
+  have hcfg : s0.cfg = s.cfg := by rw [hs0]
+  have hnr : s0.nodesResp = s.nodesResp := by rw [hs0]
+  have hact : s0.active = s.active.filter (fun b => b.id != id) := by rw [hs0]
+  have hrm : s.removeActive id = (s0, some req) := by
+    unfold removeActive
+    rw [hreq, hs0]
+  clear hs0
+  have hX : ∀ x : Svc × Option NodesResp,
+      x = (if total > 1 then s0.takeNodesResp id else (s0, none)) →
+      x.1.active = s0.active ∧
+      x.2 = (if total > 1 then (s0.nodesResp.find? (fun p => p.1 == id)).map (·.2) else none) := by
+    intro x hx
+    by_cases ht : total > 1
+    · rw [if_pos ht] at hx ⊢
+      rw [hx]
+      exact ⟨takeNodesResp_fst s0 id, takeNodesResp_snd s0 id⟩
+    · rw [if_neg ht] at hx ⊢
+      rw [hx]
+      exact ⟨rfl, rfl⟩
+  obtain ⟨rid, rpeer, raddr, rbody, rq, rcb⟩ := req
+  unfold handleResponse
+  rw [hrm]
+  simp only []
+  by_cases h1 : (rpeer != peer || raddr != addr) = true
+  · rw [if_pos h1]; exact Or.inl hact
+  rw [if_neg h1]
+  by_cases h2 : (!(RespBody.nodes total recs).matchRequest rbody) = true
+  · rw [if_pos h2]; exact Or.inl hact
+  rw [if_neg h2]
+  by_cases h3 : rcb = true
+  · rw [if_pos h3]; exact Or.inl hact
+  rw [if_neg h3]
+  generalize hx : (if total > 1 then s0.takeNodesResp id else (s0, none)) = x
+  obtain ⟨hx1, hx2⟩ := hX x hx.symm
+  split
+  · rename_i nr hacc
+    right
+    rw [hx2, hcfg, hnr] at hacc
+    refine ⟨nr, ?_⟩
+    cases rbody <;> exact hacc
+  · rename_i all hacc
+    left
+    show ((x.1.takeNodesResp id).1.discovered peer all rq).1.active = _
+    rw [discovered_active, takeNodesResp_fst, hx1, hact]
 
 end Discv5.Svc
